@@ -119,6 +119,31 @@ func interactionPrograms() []string {
 			}
 		}
 	}
+	// (G) names with a special status used as parameter / loop variable / assignment target: extension functions (found
+	//     before the environment, not assignable), identifiers of the root environment (abs, keys, PI, nil ...), self, args
+	for _, nm := range []string{"min", "max", "int", "round", "type", "join", "abs", "keys", "printf", "str", "PI", "E", "Inf", "NaN", "nil", "null", "self", "args", "_", "ff"} {
+		for _, tmpl := range []string{
+			`f = func(NM) {NM}; r = catch(f(1)); println(r.err); println(catch(f("a")).err, catch(f(1.5)).err)`,
+			`f = func(a, NM) {a + 1}; println(catch(f(1, 2)).err, catch(f(1, "x")).err)`,
+			`f = func(NM) {NM++; NM}; println(catch(f(1)).err)`,
+			`f = func(NM) {g = func() {NM}; g()}; r = catch(f(1)); println(r.err)`,
+			`r = catch(func() {for NM = 3 {println(NM == 1)}}()); println(r.err)`,
+			`r = catch(func() {for NM = 1:3 {println(NM == 1)}}()); println(r.err)`,
+			`r = catch(func() {for NM = [1, 2] {println(NM == 1)}}()); println(r.err)`,
+			`r = catch(func() {for NM = 2 {for j = 2 {println(NM == j)}}}()); println(r.err)`,
+			`f = func(n) {for NM = n {println(NM == 1)}; n}; println(catch(f(2)).err)`,
+			`r = catch(func() {NM = 1; NM + 1}()); println(r.err)`,
+			`r = catch(func() {NM := 1; NM + 1}()); println(r.err)`,
+			`r = catch(func() {NM = 1}()); println(r.err); println(catch(NM == 1).err)`,
+			`println(catch(func() {NM++}()).err, catch(func() {del(NM)}()).err)`,
+			`func NM(n) {n + 1}`, `println(catch(func() {func NM(n) {n + 1}; NM(1)}()).err)`,
+			`m = {"NM": 1}; println(m.NM, catch(m["NM"]).err)`,
+			`func ff(NM) {NM == 1}; println(catch(ff(1)).err)`, `func ff() {for NM = 2 {println(NM == 1)}}; println(catch(ff()).err)`,
+			`func ff() {g = func() {for NM = 2 {println(NM == 1)}}; g()}; println(catch(ff()).err)`,
+		} {
+			out = append(out, strings.ReplaceAll(tmpl, "NM", nm))
+		}
+	}
 	// containers reached through references
 	for _, a := range []string{"x[0] = 5", `x.k = 5`, "del(x[0])", "x = x + 1", "x = x + x", "del(x)"} {
 		for _, init := range []string{"[1, 2, 3]", `{"k": 1, 0: 2}`, "1:12", `{1: 1, 2: 2, 3: 3, 4: 4, 5: 5}`} {
